@@ -44,6 +44,16 @@ func GenConcScript(r *Rng, stress bool, hist map[string]int) []string {
 		c.sync = 1
 		c.fsize = r.Pick(200, 700, 4096, 1<<20)
 	}
+	static := 0
+	if stress && r.Chance(1, 2) {
+		static = r.Pick(300, 3000)
+		hist["conc_stress_with_static_population"]++
+		if r.Chance(2, 3) {
+			// one data file of many blocks: readers of different blocks of one file at the same moment
+			c.fsize = 1 << 20
+			hist["conc_stress_static_population_in_one_file"]++
+		}
+	}
 	add("dir db")
 	add("open %s", c)
 	keys := []string{"6b31", "6b32", "6b33"}
@@ -54,11 +64,6 @@ func GenConcScript(r *Rng, stress bool, hist map[string]int) []string {
 	if stress {
 		for i := 0; i < 12; i++ {
 			add("put %s %s", fmt.Sprintf("%x", fmt.Sprintf("ck%02d", r.Intn(4))), val())
-		}
-		static := 0
-		if r.Chance(1, 2) {
-			static = r.Pick(300, 3000)
-			hist["conc_stress_with_static_population"]++
 		}
 		add("concstress %d %d %d %d %d %d", 2+r.Intn(7), 10+r.Intn(25), 2+r.Intn(3), r.Intn(1<<30), r.Intn(2), static)
 		hist["conc_stress"]++
